@@ -664,7 +664,7 @@ ADDENDA = {
            'tree), updates of the total written once after the arms of a branch are paired by path counting. Sums are accumulated in a type as wide as the counter they are applied to (F-ACCW). Vertex loops of the mutators are not left early (F-LOOP). No 64-bit seen-mask is built by shifting an int (D-SHIFT).',
     'C17': 'Also decided: a list is not mutated under a live cursor, directly or through a callee (F-CURSOR.live), results of '
            'max_element / min_element are dereferenced only on a non-empty range, every scalar member is initialised (D-INIT), '
-           'binary searches run on sorted ranges (F-SORTED), no signed arithmetic on converted unsigned values (F-SOVF). References obtained through std::min / std::max alias their arguments (F-TS); accumulator widths (F-ACCW); string literal + integer (D-STRPLUS). No three-iterator std::equal / is_permutation / mismatch without a length test (F-RANGE2); acyclic call graph (D-REC); no int shift into a 64-bit mask (D-SHIFT).',
+           'binary searches run on sorted ranges (F-SORTED), no signed arithmetic on converted unsigned values (F-SOVF). References obtained through std::min / std::max alias their arguments (F-TS); accumulator widths (F-ACCW); string literal + integer (D-STRPLUS). No three-iterator std::equal / is_permutation / mismatch without a length test (F-RANGE2); acyclic call graph (D-REC); no int shift into a 64-bit mask (D-SHIFT). A reference bound to the element of a list iterator is not read after erase() of that iterator (F-TS).',
     'C18': 'Also decided: the library starts no thread, calls no function that replaces process-wide state (locale, terminate '
            'handler, environment) or uses hidden static storage (localtime ...), and the writers touch exactly the file they are '
            'given (F-IO.OPEN: the caller\'s name itself, no rename / remove). Callables handed to the file routines are taken by value.',
